@@ -4,7 +4,7 @@ SRC=$1; ID=$2; TIER=$3; shift 3
 cd "$(dirname "$0")/.." || exit 2
 mkdir -p seeded/$ID
 cp "$SRC/patch.diff" "$SRC/demo.c" seeded/$ID/ || exit 2
-[ -f "$SRC/REPORT.md" ] && cp "$SRC/REPORT.md" seeded/$ID/
+for f in REPORT.md NOTES.txt; do [ -f "$SRC/$f" ] && cp "$SRC/$f" seeded/$ID/; done
 SAN=address,undefined; case "$ID" in C20-*) grep -q pthread seeded/$ID/demo.c && SAN=thread;; esac
 echo "== $ID confirm: $(tools/confirm_seed.sh seeded/$ID $SAN 2>&1 | tail -2 | tr '\n' ' ')"
 tools/seedtest.sh seeded/$ID/patch.diff $TIER "$@" 2>&1 | sed "s/^/   $ID: /"
